@@ -298,7 +298,7 @@ func cliBuildFile(valid []string) (file []byte, lines []cliLine) {
 	for k := 0; k < n; k++ {
 		id := string(rune('0' + k))
 		var l cliLine
-		switch V.Int("kind"+id, 0, 5) {
+		switch V.Int("kind"+id, 0, 6) {
 		case 0:
 			l = cliLine{text: []byte(valid[0]), key: true}
 		case 1:
@@ -323,6 +323,16 @@ func cliBuildFile(valid []string) (file []byte, lines []cliLine) {
 			l = cliLine{text: t, bad: true}
 		case 5:
 			l = cliLine{text: []byte(valid[0] + " "), bad: true}
+		case 6: // a '#' behind a blank is not a comment
+			t := []byte{' ', '#'}
+			if V.Bool("tab" + id) {
+				t[0] = '\t'
+			}
+			c := V.Bytes("ic"+id, V.Int("il"+id, 0, 1))
+			for _, x := range c {
+				V.Assume(notLFTab[x])
+			}
+			l = cliLine{text: append(t, c...), bad: true}
 		}
 		lines = append(lines, l)
 		file = append(file, l.text...)
